@@ -16,7 +16,7 @@ assert run(f"git -C /repo worktree add -q --detach {W} HEAD").returncode == 0
 meta = {"property": P, "source": "independent sub-agent given only the property text and a scratch worktree"}
 try:
     env = dict(os.environ, PYTHONPATH=W)
-    meta["round"] = 6 if "seedout6" in srcroot else 5 if "seedout5" in srcroot else 4 if "seedout4" in srcroot else 3 if "seedout3" in srcroot else 2 if "seedout2" in srcroot else 1
+    meta["round"] = 7 if "seedout7" in srcroot else 6 if "seedout6" in srcroot else 5 if "seedout5" in srcroot else 4 if "seedout4" in srcroot else 3 if "seedout3" in srcroot else 2 if "seedout2" in srcroot else 1
     d = open(demo).read().replace(f"/tmp/seedwt/{P}", W)
     open(f"{W}/_demo.py", "w").write(d)
     r0 = run(f"cd {W} && /venv/bin/python _demo.py", env=env, timeout=900)
